@@ -268,6 +268,15 @@ def run_point(p: Dict[str, Any], verbose: bool = False) -> Tuple[Optional[Dict[s
         registered = {i.name.lower(): i for i in zc.registry.async_get_service_infos()}
         reg_descs = [s for s in (S1, S2) if s.name.lower() in registered]
         n_trace = len(w.net.trace)
+        close_raised: List[str] = []
+
+        def closing(fn: Any) -> None:
+            # close() / async_close() themselves must not raise, whatever is in progress and however often they are called
+            try:
+                fn()
+            except Exception as e:  # noqa: BLE001
+                close_raised.append(f"{type(e).__name__}: {str(e)[:200]}")
+
         if p.get("eagain_bye"):
             seen_byes = [0]
 
@@ -284,7 +293,7 @@ def run_point(p: Dict[str, Any], verbose: bool = False) -> Tuple[Optional[Dict[s
             for t in host.transports():
                 t.eagain = eagain
         if p["mode"] == "async_close":
-            w.run_coro(azc.async_close(), max_ms=60_000)
+            closing(lambda: w.run_coro(azc.async_close(), max_ms=60_000))
         elif p["mode"] == "async_close_cancelled":
             # the application's close is cancelled after k loop iterations (a timeout around it, a cancelled parent task) and
             # requested again, as a `finally:` would: the second request has to finish what the first one left undone
@@ -294,10 +303,10 @@ def run_point(p: Dict[str, Any], verbose: bool = False) -> Tuple[Optional[Dict[s
                     break
             first.cancel()
             w.settle()
-            w.run_coro(azc.async_close(), max_ms=60_000)
+            closing(lambda: w.run_coro(azc.async_close(), max_ms=60_000))
         else:
             with w.outside(foreign_loop=p["mode"] == "sync_close_foreign_loop"):
-                zc.close()
+                closing(zc.close)
         t_ret = w.now_ms
         if p.get("stall_ms"):
             # the application blocks the loop's thread for a while right after close returned (synchronous clean-up): whatever
@@ -354,10 +363,12 @@ def run_point(p: Dict[str, Any], verbose: bool = False) -> Tuple[Optional[Dict[s
             problems.append("sockets: a transport is still open after close returned")
         # second close: a no-op
         if p["mode"] in ("async_close", "async_close_cancelled"):
-            w.run_coro(azc.async_close(), max_ms=60_000)
+            closing(lambda: w.run_coro(azc.async_close(), max_ms=60_000))
         else:
             with w.outside(foreign_loop=p["mode"] == "sync_close_foreign_loop"):
-                zc.close()
+                closing(zc.close)
+        if close_raised:
+            problems.append(f"close-raised: a close call raised {close_raised[0]}")
         # three hours, with fresh traffic aimed at the dead sockets
         for k, dt in enumerate((1, 50, 300, 1000, 5000, 60_000, 600_000, 3_600_000, 7_200_000)):
             w.advance(dt)
